@@ -32,6 +32,7 @@
 #include "suppressions.h"
 #include "timer.h"
 #include "utils.h"
+#include "verif_trace.h"
 
 #include <algorithm>
 #include <numeric>
@@ -87,6 +88,7 @@ namespace {
         }
 
         void reportErr(const ErrorMessage &msg) override {
+            VERIF_EVT("SendErr", verif::msgKey(msg));
             writeToPipe(REPORT_ERROR, msg.serialize());
         }
 
@@ -156,19 +158,23 @@ namespace {
             if (mDebug)
                 std::cout << "writeToPipe - " << static_cast<char>(type) << " - " << data << std::endl;
 
+            VERIF_EVT("Send", verif::kv("type", std::string(1, static_cast<char>(type))) + verif::kv("len", static_cast<long>(data.length())) + verif::kv("phase", "type"));
             {
                 const auto t = static_cast<char>(type);
                 writeToPipeInternal(type, &t, 1);
             }
 
             const auto len = static_cast<unsigned int>(data.length());
+            VERIF_EVT("Send", verif::kv("type", std::string(1, static_cast<char>(type))) + verif::kv("len", static_cast<long>(data.length())) + verif::kv("phase", "len"));
             {
                 static constexpr std::size_t l_size = sizeof(unsigned int);
                 writeToPipeInternal(type, &len, l_size);
             }
 
+            VERIF_EVT("Send", verif::kv("type", std::string(1, static_cast<char>(type))) + verif::kv("len", static_cast<long>(data.length())) + verif::kv("phase", "data"));
             if (len > 0) // TODO: unexpected - write a warning?
                 writeToPipeInternal(type, data.c_str(), len);
+            VERIF_EVT("Sent", verif::kv("type", std::string(1, static_cast<char>(type))) + verif::kv("len", static_cast<long>(data.length())));
         }
 
         const int mWpipe;
@@ -190,6 +196,7 @@ bool ProcessExecutor::handleRead(int rpipe, unsigned int &result, const std::str
 
         // TODO: log details about failure
 
+        VERIF_EVT("PipeEof", verif::kv("file", filename) + verif::kv("fd", rpipe));
         // need to increment so a missing pipe (i.e. premature exit of forked process) results in an error exitcode
         ++result;
         return false;
@@ -242,6 +249,7 @@ bool ProcessExecutor::handleRead(int rpipe, unsigned int &result, const std::str
     if (mSettings.debugipc)
         std::cout << "handleRead - " << type << " - " << buf << std::endl;
 
+    VERIF_EVT("Recv", verif::kv("file", filename) + verif::kv("fd", rpipe) + verif::kv("type", std::string(1, type)) + verif::kv("len", static_cast<long>(len)) + (type == PipeWriter::CHILD_END ? verif::kv("n", buf) : std::string()));
     bool res = true;
     if (type == PipeWriter::REPORT_OUT) {
         // the first character is the color
@@ -257,6 +265,7 @@ bool ProcessExecutor::handleRead(int rpipe, unsigned int &result, const std::str
             std::exit(EXIT_FAILURE);
         }
 
+        VERIF_EVT("RecvErr", verif::msgKey(msg) + verif::kv("cfile", filename) + verif::kv("fd", rpipe));
         if (hasToLog(msg))
             mErrorLogger.reportErr(msg);
     } else if (type == PipeWriter::REPORT_SUPPR_INLINE || type == PipeWriter::REPORT_SUPPR) {
@@ -392,6 +401,7 @@ unsigned int ProcessExecutor::check()
                     timerResults.reset(new TimerResults);
 
                 PipeWriter pipewriter(pipes[1], mSettings.debugipc);
+                VERIF_EVT("ChildStart", verif::kv("file", iFileSettings != mFileSettings.end() ? iFileSettings->filename() : iFile->path()) + verif::kv("lists", verif::addr(&supprs.nomsg) + "," + verif::addr(&supprs.nofail)));
                 CppCheck fileChecker(mSettings, supprs, pipewriter, timerResults.get(), false, mExecuteCommand);
                 unsigned int resultOfCheck = 0;
 
@@ -402,16 +412,19 @@ unsigned int ProcessExecutor::check()
                     resultOfCheck = fileChecker.check(*iFile);
                 }
 
+                VERIF_EVT("ChildChecked", verif::kv("result", resultOfCheck));
                 pipewriter.writeSuppr(supprs.nomsg);
 
                 pipewriter.writeTimer(timerResults.get());
 
                 pipewriter.writeEnd(std::to_string(resultOfCheck));
+                VERIF_EVT("ChildExit", "");
                 std::exit(EXIT_SUCCESS);
             }
 
             close(pipes[1]);
             rpipes.push_back(pipes[0]);
+            VERIF_EVT("Spawn", verif::kv("cpid", static_cast<long>(pid)) + verif::kv("fd", pipes[0]) + verif::kv("file", iFileSettings != mFileSettings.end() ? iFileSettings->filename() : iFile->path()));
             if (iFileSettings != mFileSettings.end()) {
                 childFile[pid] = iFileSettings->filename() + ' ' + iFileSettings->cfg;
                 pipeFile[pipes[0]] = iFileSettings->filename() + ' ' + iFileSettings->cfg;
@@ -472,6 +485,7 @@ unsigned int ProcessExecutor::check()
             int stat = 0;
             const pid_t child = waitpid(0, &stat, WNOHANG);
             if (child > 0) {
+                VERIF_EVT("Reap", verif::kv("cpid", static_cast<long>(child)) + verif::kb("exited", WIFEXITED(stat)) + verif::kv("code", WIFEXITED(stat) ? WEXITSTATUS(stat) : (WIFSIGNALED(stat) ? WTERMSIG(stat) : -1)));
                 std::string childname;
                 const auto c = utils::as_const(childFile).find(child);
                 if (c != childFile.cend()) {
@@ -499,6 +513,7 @@ unsigned int ProcessExecutor::check()
         }
     }
 
+    VERIF_EVT("ProcDone", verif::kv("result", result));
     // TODO: we need to get the timing information from the subprocess
 
     return result;
@@ -515,6 +530,7 @@ void ProcessExecutor::reportInternalChildErr(const std::string &childname, const
                               "cppcheckError",
                               Certainty::normal);
 
+    VERIF_EVT("ChildErr", verif::kv("file", childname) + verif::kv("msg", msg));
     if (hasToLog(errmsg))
         mErrorLogger.reportErr(errmsg);
 }
